@@ -83,6 +83,20 @@ def run(ctx, rep):
         scs.append({'rules': {'p': [[lhs + ':' + rhs]]},
                     'queries': [{'rule': 'p', 'target': target, 'creds': creds}],
                     '_lhs': lhs, '_rhs': rhs, '_path': path, '_tkey': tkey})
+    # directed: list elements that are == to one another but print differently (True/1/1.0, False/0/0.0): each is an element
+    # of its own (seeded change C05-A8 skipped an element equal to one already visited)
+    n_dir = 0
+    for L in ([True, 1], [1, True], [0, False], [False, 0], [1, 1.0], [1.0, 1], [0, 0.0, False], [True, 1.0, 1], ['1', 1, True],
+              [False, '0', 0]):
+        for x in sorted({str(e) for e in L} | {'2'}):
+            for creds, lhs in (({'flags': list(L)}, 'flags'), ({'a': {'flags': list(L)}}, 'a.flags'),
+                               ({'a': [{'b': e} for e in L]}, 'a.b'), ({'a': [[e] for e in L]}, 'a')):
+                creds = dict(creds, roles=['r0'])
+                scs.append({'rules': {'p': [[lhs + ':' + x]]},
+                            'queries': [{'rule': 'p', 'target': {'other': 1}, 'creds': creds}],
+                            '_lhs': lhs, '_rhs': x, '_path': lhs.split('.'), '_tkey': 'tk'})
+                n_dir += 1
+    rep.rules.append('%d directed checks over lists whose elements are equal under == but print differently' % n_dir)
     rep.rules.append('%d generic checks: left side a Python literal (both quote styles, ints, floats, booleans, None, containers) '
                      'or a dotted path of depth 1..4 over nested credentials (dicts, lists of dicts, lists of lists, scalars of '
                      'every JSON type incl. values equal to the string form of others); right side literal or %%(key)s '
